@@ -43,9 +43,9 @@ Print Assumptions C10_ctor_rejects_decreasing.
 Example C10_example :
   let bu := q_mkBasis 3 [-1; 0; 1; 2; 3; 4; 5; 6]%Q 2 in
   let bv := q_mkBasis 2 [0; 0; 1; 1]%Q 0 in
-  let o := q_mkObj [bu; bv] [[0;0;1]; [0;2;1]; [1;0;2]; [2;4;2]; [3;1;1]; [3;3;1]; [8;0;2]; [8;8;2]]%Q 2 true in
+  let o := q_mkObj [bu; bv] [[0;0;1]; [0;2;1]; [1;0;2]; [2;4;2]; [3;1;1]; [3;3;1]]%Q 2 true in
   match @run Q NumQ o [OpInsert 1 [(1#2)%Q]; OpSwap 0 1; OpReverse 0; OpTranslate [1;2;3]%Q; OpScale [2%Q]; OpReparam 1 (3%Q) (5%Q)] with
-  | Ok o' => q_wf_obj_b (1#10000000000) o' = true /\ o_dim o' = 3%nat /\ length (o_cps o') = 12%nat
+  | Ok o' => q_wf_obj_b (1#10000000000) o' = true /\ o_dim o' = 3%nat /\ length (o_cps o') = 9%nat
   | Err _ => False
   end.
 Proof. vm_compute. repeat split; reflexivity. Qed.
